@@ -290,6 +290,15 @@ def check_dict_literal(ctx, repo, rid):
         dvar = st.targets[0].id if isinstance(st, ast.Assign) and isinstance(st.targets[0], ast.Name) else None
         uses = [n for n in walk_local(kr.node) if isinstance(n, ast.Name) and n.id == dvar and isinstance(n.ctx, ast.Load) and n.lineno >= st.lineno and n is not b.args[0]] if dvar else []
         # every use after the construction is as the args of a KGCall whose function is a copying thunk
+        # uses that cannot let the object out: inside an assert, or as argument of a type/size predicate
+        def _harmless(u):
+            q = u
+            while q is not None and not isinstance(q, ast.stmt):
+                if isinstance(q, ast.Call) and callee_name(q) in ("isinstance", "len", "type", "is_dict", "bool") and u in q.args:
+                    return True
+                q = getattr(q, "_parent", None)
+            return isinstance(q, ast.Assert)
+        uses = [u for u in uses if not _harmless(u)]
         ok_all = bool(uses)
         for u in uses:
             p = u._parent
